@@ -7,3 +7,25 @@ def fill(C, PENDING):
       "unbounded ends, every calendar) and every result is compared with Python set/range arithmetic; held means no disagreement on "
       "the pairs listed in the evidence, not a proof.",
       "Trusts Python int/set arithmetic and the day-number mapping (itself monitored by C01).", "§3 C18")
+
+    C("C03", "exploration", "runtime monitoring: integer reference model + icontract postconditions on the real operators + raise-clause boundary monitor",
+      "Every Duration/Instant/Offset factory, operator and accessor is executed on a boundary lattice and seeded magnitudes and compared with Python "
+      "int arithmetic; icontract postconditions additionally judge every internal call of the operators made during the workload. Held = no "
+      "disagreement on the operations counted in the evidence.",
+      "Trusts Python big-int arithmetic; float total_* accessors judged with an ulp tolerance because they are documented as approximate.", "§3 C03")
+    C("C10", "exploration", "runtime monitoring: modular-arithmetic model of time of day / local timeline + icontract carry contract",
+      "LocalTime/LocalDateTime arithmetic in all calendars is executed for amounts around day multiples and far beyond 64 bits and compared with "
+      "divmod on the local timeline; a contract on the internal carry helper judges every call. Sampled, not exhaustive.",
+      "Trusts the day<->date mapping (C01) and LocalDate.plus_years/plus_months (C09) for the date part of a period.", "§3 C10")
+    C("C12", "exploration", "runtime monitoring: law monitor over keyed value pools + state-fingerprint immutability monitor under reflective calls",
+      "All ordered pairs of pooled values (twins via different construction routes, mixed calendars) are judged for ==/!=/hash/order/compare_to/min/max "
+      "against model keys; random public calls found by reflection are bracketed by deep state fingerprints of receiver and arguments.",
+      "Model keys are int ns/seconds/day numbers + calendar/zone id; the fingerprint stops at CalendarSystem/DateTimeZone objects whose caches may fill.", "§3 C12")
+    C("C15", "exploration", "runtime monitoring: differential against the standard library datetime module",
+      "Round trips and one-way conversions for date/time/naive+aware datetime/timedelta are compared with the stdlib itself; thorough enumerates all "
+      "3,652,059 date ordinals, the rest is boundary + seeded sampling; out-of-range pyoda values must raise.",
+      "The stdlib datetime module is the oracle.", "§3 C15")
+    C("C17", "exploration", "runtime monitoring: differential against datetime.isoformat/fromisoformat + structural regex monitor",
+      "Text from the built-in ISO patterns is read back by the stdlib and stdlib ISO text is parsed by the patterns; widths/fraction/Z shape checked by "
+      "anchored regexes. All ordinals (thorough) and all whole-minute offsets are enumerated; times/date-times/instants are sampled.",
+      "Python 3.12 fromisoformat semantics (fractions truncated to microseconds) as the independent ISO-8601 implementation.", "§3 C17")
